@@ -318,6 +318,11 @@ func genDStar(g *vlib.G) {
 	nw := vlib.Pick(g, 6, len(dsWorlds))
 	for w := 0; w < nw; w++ {
 		for heur := 0; heur < 2; heur++ {
+			if heur == 1 && !thorough && w >= 2 {
+				// quick: the discrete-metric heuristic on two worlds only;
+				// stronger heuristics are exercised by the group "dstar-heur"
+				continue
+			}
 			cfgs = append(cfgs, cfg{w, heur, (w + heur) % 3, 3, dsWeights})
 		}
 	}
